@@ -436,7 +436,7 @@ def argreduce_preprocess(array, axis):
         idx,
         dtype=array.dtype,
         meta=array._meta,
-        name="groupby-argreduce-preprocess",
+        token="groupby-argreduce-preprocess",
     )
 
 
